@@ -83,19 +83,19 @@ template <class F> void scalarFloat(pbt::Reader& r, pbt::Ctx& ctx, const char* t
     if (ctx.wantDesc) ctx.desc << "  " << tn << " " << pbt::str(x) << " -> " << show(s) << " (padded " << show(lead) << "," << show(trail) << ")\n";
     // the written text is a literal of the documented grammar denoting the same value
     c32::RefFloat<F> ref = c32::refFloat<F>(s);
-    if (!ctx.check(ref.v == c32::Accept && sameBits(ref.val, x), std::string("String(") + tn + " " + pbt::str(x) + ") = " + show(s) + " is not a literal denoting the same value (reference reads " + pbt::str(ref.val) + ")")) return;
+    if (!PBT_CK(ctx, ref.v == c32::Accept && sameBits(ref.val, x), std::string("String(") + tn + " " + pbt::str(x) + ") = " + show(s) + " is not a literal denoting the same value (reference reads " + pbt::str(ref.val) + ")")) return;
     F back = (F)4321.5; bool ok = s.tryConvertTo<F>(back);
-    if (!ctx.check(ok && sameBits(back, x), std::string("String(") + tn + ") round trip: " + pbt::str(x) + " -> " + show(s) + " -> " + (ok ? pbt::str(back) : std::string("refused")))) return;
+    if (!PBT_CK(ctx, ok && sameBits(back, x), std::string("String(") + tn + ") round trip: " + pbt::str(x) + " -> " + show(s) + " -> " + (ok ? pbt::str(back) : std::string("refused")))) return;
     F back2 = (F)4321.5; bool ok2 = String(lead + std::string(s) + trail).tryConvertTo<F>(back2);
-    if (!ctx.check(ok2 && sameBits(back2, x), std::string("surrounding white space changed the conversion of ") + show(lead + std::string(s) + trail))) return;
-    try { F v = s.convertTo<F>(); if (!ctx.check(sameBits(v, x), "convertTo<T>() value differs from tryConvertTo")) return; F w; convertStringTo(s, w); if (!ctx.check(sameBits(w, x), "convertStringTo value differs")) return; }
+    if (!PBT_CK(ctx, ok2 && sameBits(back2, x), std::string("surrounding white space changed the conversion of ") + show(lead + std::string(s) + trail))) return;
+    try { F v = s.convertTo<F>(); if (!PBT_CK(ctx, sameBits(v, x), "convertTo<T>() value differs from tryConvertTo")) return; F w; convertStringTo(s, w); if (!PBT_CK(ctx, sameBits(w, x), "convertStringTo value differs")) return; }
     catch (const std::exception& e) { ctx.fail(std::string("convertTo threw on ") + show(s) + ": " + e.what()); return; }
     std::ostringstream o; writeUnformatted(o, x);
-    if (!ctx.check(o.str() == std::string(s), "writeUnformatted(" + std::string(tn) + ") = " + show(o.str()) + " differs from String(x) = " + show(s))) return;
+    if (!PBT_CK(ctx, o.str() == std::string(s), "writeUnformatted(" + std::string(tn) + ") = " + show(o.str()) + " differs from String(x) = " + show(s))) return;
     std::istringstream in(lead + o.str() + trail); F rb = (F)4321.5; bool ok3 = readUnformatted(in, rb);
-    if (!ctx.check(ok3 && sameBits(rb, x) && !in.fail(), std::string("writeUnformatted/readUnformatted round trip of ") + pbt::str(x) + " failed (" + show(o.str()) + ")")) return;
+    if (!PBT_CK(ctx, ok3 && sameBits(rb, x) && !in.fail(), std::string("writeUnformatted/readUnformatted round trip of ") + pbt::str(x) + " failed (" + show(o.str()) + ")")) return;
     std::ostringstream of; writeFormatted(of, x); std::istringstream inf(of.str()); F rf = 0; bool ok4 = readFormatted(inf, rf);
-    ctx.check(ok4 && sameBits(rf, x), std::string("writeFormatted/readFormatted round trip of ") + pbt::str(x) + " failed");
+    PBT_CK(ctx, ok4 && sameBits(rf, x), std::string("writeFormatted/readFormatted round trip of ") + pbt::str(x) + " failed");
 }
 template <class F> void scalarComplex(pbt::Reader& r, pbt::Ctx& ctx, const char* tn) {
     std::string c1, c2; F re, im;
@@ -107,15 +107,15 @@ template <class F> void scalarComplex(pbt::Reader& r, pbt::Ctx& ctx, const char*
     std::ostringstream o; writeUnformatted(o, x);
     std::string want = std::string(String(re)) + " " + std::string(String(im));
     if (ctx.wantDesc) ctx.desc << "  complex<" << tn << "> (" << pbt::str(re) << "," << pbt::str(im) << ") -> " << show(o.str()) << " / " << show(String(x)) << "\n";
-    if (!ctx.check(o.str() == want, "writeUnformatted(complex) = " + show(o.str()) + ", documented form " + show(want))) return;
+    if (!PBT_CK(ctx, o.str() == want, "writeUnformatted(complex) = " + show(o.str()) + ", documented form " + show(want))) return;
     std::istringstream in(o.str()); std::complex<F> rb(7, 7); bool ok = readUnformatted(in, rb);
-    if (!ctx.check(ok && sameBits(rb.real(), re) && sameBits(rb.imag(), im), "writeUnformatted/readUnformatted round trip of complex " + show(o.str()) + " failed")) return;
+    if (!PBT_CK(ctx, ok && sameBits(rb.real(), re) && sameBits(rb.imag(), im), "writeUnformatted/readUnformatted round trip of complex " + show(o.str()) + " failed")) return;
     // String(complex) = "(re,im)"
     String s(x); std::string wantS = "(" + std::string(String(re)) + "," + std::string(String(im)) + ")";
-    if (!ctx.check(std::string(s) == wantS, "String(complex) = " + show(s) + ", documented form " + show(wantS))) return;
+    if (!PBT_CK(ctx, std::string(s) == wantS, "String(complex) = " + show(s) + ", documented form " + show(wantS))) return;
     if (nonfinite && ctx.known("complex-string-nonfinite")) { ctx.label("excluded:complex-string-nonfinite"); return; }
     std::complex<F> back(7, 7); bool ok2 = s.tryConvertTo(back);
-    ctx.check(ok2 && sameBits(back.real(), re) && sameBits(back.imag(), im), "String(complex) round trip: " + show(s) + " -> " + (ok2 ? "(" + pbt::str(back.real()) + "," + pbt::str(back.imag()) + ")" : std::string("refused")));
+    PBT_CK(ctx, ok2 && sameBits(back.real(), re) && sameBits(back.imag(), im), "String(complex) round trip: " + show(s) + " -> " + (ok2 ? "(" + pbt::str(back.real()) + "," + pbt::str(back.imag()) + ")" : std::string("refused")));
 }
 template <class T> void scalarInt(pbt::Reader& r, pbt::Ctx& ctx, const char* tn) {
     T x = genInt<T>(r); std::string lead = genWs(r), trail = genWs(r);
@@ -123,21 +123,21 @@ template <class T> void scalarInt(pbt::Reader& r, pbt::Ctx& ctx, const char* tn)
     String s(x);
     if (ctx.wantDesc) ctx.desc << "  " << tn << " " << pbt::str(+x) << " -> " << show(s) << "\n";
     c32::RefInt<T> ref = c32::refInt<T>(s);
-    if (!ctx.check(ref.v == c32::Accept && ref.val == x, std::string("String(") + tn + " " + pbt::str(+x) + ") = " + show(s) + " is not a literal denoting the same value")) return;
+    if (!PBT_CK(ctx, ref.v == c32::Accept && ref.val == x, std::string("String(") + tn + " " + pbt::str(+x) + ") = " + show(s) + " is not a literal denoting the same value")) return;
     T back = 77; bool ok = String(lead + std::string(s) + trail).tryConvertTo<T>(back);
-    if (!ctx.check(ok && back == x, std::string("String(") + tn + ") round trip: " + pbt::str(+x) + " -> " + show(s) + " -> " + (ok ? pbt::str(+back) : std::string("refused")))) return;
+    if (!PBT_CK(ctx, ok && back == x, std::string("String(") + tn + ") round trip: " + pbt::str(+x) + " -> " + show(s) + " -> " + (ok ? pbt::str(+back) : std::string("refused")))) return;
     std::ostringstream o; writeUnformatted(o, x); std::istringstream in(lead + o.str() + trail); T rb = 77; bool ok2 = readUnformatted(in, rb);
-    ctx.check(o.str() == std::string(s) && ok2 && rb == x, std::string("writeUnformatted/readUnformatted round trip of ") + tn + " " + pbt::str(+x) + " failed");
+    PBT_CK(ctx, o.str() == std::string(s) && ok2 && rb == x, std::string("writeUnformatted/readUnformatted round trip of ") + tn + " " + pbt::str(+x) + " failed");
 }
 void scalarBool(pbt::Reader& r, pbt::Ctx& ctx) {
     bool x = r.boolean(); std::string lead = genWs(r), trail = genWs(r);
     ctx.label("scalar:bool");
     String s(x);
-    if (!ctx.check(std::string(s) == (x ? "true" : "false"), "String(bool) is not \"true\"/\"false\"")) return;
+    if (!PBT_CK(ctx, std::string(s) == (x ? "true" : "false"), "String(bool) is not \"true\"/\"false\"")) return;
     bool back = !x; bool ok = String(lead + std::string(s) + trail).tryConvertTo<bool>(back);
-    if (!ctx.check(ok && back == x, "String(bool) round trip failed")) return;
+    if (!PBT_CK(ctx, ok && back == x, "String(bool) round trip failed")) return;
     std::ostringstream o; writeUnformatted(o, x); std::istringstream in(lead + o.str() + trail); bool rb = !x; bool ok2 = readUnformatted(in, rb);
-    ctx.check(o.str() == std::string(s) && ok2 && rb == x, "writeUnformatted/readUnformatted round trip of bool failed");
+    PBT_CK(ctx, o.str() == std::string(s) && ok2 && rb == x, "writeUnformatted/readUnformatted round trip of bool failed");
 }
 void modeScalar(const pbt::Tape& t, pbt::Ctx& ctx) {
     for (size_t u = 1; u < t.size() && !ctx.failed; ++u) {
@@ -251,17 +251,17 @@ template <class E> bool checkText(const std::string& text, const std::vector<E>&
     // optimiser (strict-aliasing violation; g++ -O2 returns stale elements). Only the token count is judged for that class.
     if (rowOrMat && IsComplex<E>::value && ctx.known("unformatted-complex-row-conjugated")) {
         ctx.label("excluded:complex-row-conjugated");
-        ctx.check(tk.size() == want.size() * Elem<E>::ntok(), "writeUnformatted(" + what + ") wrote " + std::to_string(tk.size()) + " tokens for " + std::to_string(want.size()) + " elements: " + show(text));
+        PBT_CK(ctx, tk.size() == want.size() * Elem<E>::ntok(), "writeUnformatted(" + what + ") wrote " + std::to_string(tk.size()) + " tokens for " + std::to_string(want.size()) + " elements: " + show(text));
         return false;
     }
-    if (!ctx.check(tk.size() == want.size() * Elem<E>::ntok(), "writeUnformatted(" + what + ") wrote " + std::to_string(tk.size()) + " tokens for " + std::to_string(want.size()) + " elements: " + show(text))) return false;
-    for (size_t i = 0; i < want.size(); ++i) if (!ctx.check(Elem<E>::tok(tk, i * Elem<E>::ntok(), want[i]), "writeUnformatted(" + what + ") token " + std::to_string(i) + " does not denote element " + std::to_string(i) + ": " + show(text))) return false;
+    if (!PBT_CK(ctx, tk.size() == want.size() * Elem<E>::ntok(), "writeUnformatted(" + what + ") wrote " + std::to_string(tk.size()) + " tokens for " + std::to_string(want.size()) + " elements: " + show(text))) return false;
+    for (size_t i = 0; i < want.size(); ++i) if (!PBT_CK(ctx, Elem<E>::tok(tk, i * Elem<E>::ntok(), want[i]), "writeUnformatted(" + what + ") token " + std::to_string(i) + " does not denote element " + std::to_string(i) + ": " + show(text))) return false;
     // separators: single blanks inside a row, '\n' between rows, nothing leading/trailing
     std::string re; { size_t p = 0; for (int i = 0; i < rows; ++i) { if (i) re += '\n'; for (int j = 0; j < cols * Elem<E>::ntok(); ++j) { if (j) re += ' '; re += tk[p++]; } } }
-    return ctx.check(re == text, "writeUnformatted(" + what + ") separators are not the documented ones (blank within a row, newline between rows): " + show(text));
+    return PBT_CK(ctx, re == text, "writeUnformatted(" + what + ") separators are not the documented ones (blank within a row, newline between rows): " + show(text));
 }
 template <class E, class C, class Get> bool sameAll(const std::vector<E>& want, const C& got, Get get, pbt::Ctx& ctx, const std::string& what) {
-    (void)got; for (size_t i = 0; i < want.size(); ++i) if (!ctx.check(Elem<E>::same(want[i], get(i)), "readUnformatted(" + what + ") changed element " + std::to_string(i) + ": wrote " + pbt::str(E(want[i])) + ", read " + pbt::str(E(get(i))))) return false; return true;
+    (void)got; for (size_t i = 0; i < want.size(); ++i) if (!PBT_CK(ctx, Elem<E>::same(want[i], get(i)), "readUnformatted(" + what + ") changed element " + std::to_string(i) + ": wrote " + pbt::str(E(want[i])) + ", read " + pbt::str(E(get(i))))) return false; return true;
 }
 std::string dropLastToken(const std::string& s) { std::string t = c32::trim(s); size_t p = t.size(); while (p > 0 && !c32::isWs((unsigned char)t[p - 1])) --p; return t.substr(0, p); }
 
@@ -273,10 +273,10 @@ template <class E, int N> void contVec(ElemSrc& src, pbt::Ctx& ctx, bool row) {
     if (ctx.wantDesc) ctx.desc << "  " << what << " -> " << show(o.str()) << "\n";
     if (!checkText(o.str(), want, 1, N, ctx, what, row)) return;
     std::istringstream in(o.str() + " 42"); Vec<N, E> b; bool ok; if (row) { Row<N, E> rb; ok = readUnformatted(in, rb); for (int i = 0; i < N; ++i) b[i] = rb[i]; } else ok = readUnformatted(in, b);
-    if (!ctx.check(ok, "readUnformatted(" + what + ") refused " + show(o.str()))) return;
+    if (!PBT_CK(ctx, ok, "readUnformatted(" + what + ") refused " + show(o.str()))) return;
     if (!sameAll(want, b, [&](size_t i) { return b[(int)i]; }, ctx, what)) return;
-    int nx = 0; if (!ctx.check(readUnformatted(in, nx) && nx == 42, "readUnformatted(" + what + ") consumed the token following the vector")) return;
-    std::istringstream sh(dropLastToken(o.str())); Vec<N, E> c; ctx.check(!readUnformatted(sh, c) && sh.fail(), "readUnformatted(" + what + ") accepted a list that is one token short: " + show(dropLastToken(o.str())));
+    int nx = 0; if (!PBT_CK(ctx, readUnformatted(in, nx) && nx == 42, "readUnformatted(" + what + ") consumed the token following the vector")) return;
+    std::istringstream sh(dropLastToken(o.str())); Vec<N, E> c; PBT_CK(ctx, !readUnformatted(sh, c) && sh.fail(), "readUnformatted(" + what + ") accepted a list that is one token short: " + show(dropLastToken(o.str())));
 }
 template <class E, int M, int N> void contMat(ElemSrc& src, pbt::Ctx& ctx) {
     std::vector<E> want; Mat<M, N, E> m; for (int i = 0; i < M; ++i) for (int j = 0; j < N; ++j) { want.push_back(src.next<E>()); m(i, j) = want.back(); }
@@ -285,9 +285,9 @@ template <class E, int M, int N> void contMat(ElemSrc& src, pbt::Ctx& ctx) {
     if (ctx.wantDesc) ctx.desc << "  " << what << " -> " << show(o.str()) << "\n";
     if (!checkText(o.str(), want, M, N, ctx, what, true)) return;
     std::istringstream in(o.str()); Mat<M, N, E> b; bool ok = readUnformatted(in, b);
-    if (!ctx.check(ok, "readUnformatted(" + what + ") refused " + show(o.str()))) return;
+    if (!PBT_CK(ctx, ok, "readUnformatted(" + what + ") refused " + show(o.str()))) return;
     if (!sameAll(want, b, [&](size_t i) { return b((int)i / N, (int)i % N); }, ctx, what)) return;
-    std::istringstream sh(dropLastToken(o.str())); Mat<M, N, E> c; ctx.check(!readUnformatted(sh, c), "readUnformatted(" + what + ") accepted a list that is one token short");
+    std::istringstream sh(dropLastToken(o.str())); Mat<M, N, E> c; PBT_CK(ctx, !readUnformatted(sh, c), "readUnformatted(" + what + ") accepted a list that is one token short");
 }
 template <class E> void contArray(ElemSrc& src, pbt::Ctx& ctx, int n) {
     std::vector<E> want; for (int i = 0; i < n; ++i) want.push_back(src.next<E>());
@@ -296,13 +296,13 @@ template <class E> void contArray(ElemSrc& src, pbt::Ctx& ctx, int n) {
         if (ctx.wantDesc) ctx.desc << "  Array_ n=" << n << " -> " << show(o.str()) << "\n";
         if (!checkText(o.str(), want, 1, n, ctx, "Array_")) return;
         std::istringstream in(o.str()); Array_<E> b; b.push_back(E()); bool ok = readUnformatted(in, b);
-        if (!ctx.check(ok && (int)b.size() == n, "readUnformatted(Array_) refused or resized wrongly: " + show(o.str()) + " -> size " + std::to_string(b.size()))) return;
+        if (!PBT_CK(ctx, ok && (int)b.size() == n, "readUnformatted(Array_) refused or resized wrongly: " + show(o.str()) + " -> size " + std::to_string(b.size()))) return;
         if (!sameAll(want, b, [&](size_t i) { return b[(int)i]; }, ctx, "Array_")) return;
         // fixed-size view: fills exactly n, one token short fails
         Array_<E> c(n); ArrayView_<E> cv = c.updSubArray(0, n); std::istringstream in2(o.str() + " 42"); bool ok2 = readUnformatted(in2, cv);
-        if (!ctx.check(ok2, "readUnformatted(ArrayView_) refused " + show(o.str()))) return;
+        if (!PBT_CK(ctx, ok2, "readUnformatted(ArrayView_) refused " + show(o.str()))) return;
         if (!sameAll(want, c, [&](size_t i) { return c[(int)i]; }, ctx, "ArrayView_")) return;
-        if (n > 0) { Array_<E> d(n); ArrayView_<E> dv = d.updSubArray(0, n); std::istringstream sh(dropLastToken(o.str())); ctx.check(!readUnformatted(sh, dv), "readUnformatted(ArrayView_) accepted a list that is one token short"); }
+        if (n > 0) { Array_<E> d(n); ArrayView_<E> dv = d.updSubArray(0, n); std::istringstream sh(dropLastToken(o.str())); PBT_CK(ctx, !readUnformatted(sh, dv), "readUnformatted(ArrayView_) accepted a list that is one token short"); }
 }
 template <class E> void contDyn(ElemSrc& src, pbt::Ctx& ctx, int kind, int n, int m) {
     std::vector<E> want; for (int i = 0; i < (kind == 3 ? n * m : n); ++i) want.push_back(src.next<E>());
@@ -313,11 +313,11 @@ template <class E> void contDyn(ElemSrc& src, pbt::Ctx& ctx, int kind, int n, in
         if (ctx.wantDesc) ctx.desc << "  Vector_ n=" << n << " -> " << show(o.str()) << "\n";
         if (!checkText(o.str(), want, 1, n, ctx, "Vector_")) return;
         std::istringstream in(o.str()); Vector_<E> b(3); bool ok = readUnformatted(in, b);
-        if (!ctx.check(ok && b.size() == n, "readUnformatted(Vector_) refused or resized wrongly: " + show(o.str()) + " -> size " + std::to_string(b.size()))) return;
+        if (!PBT_CK(ctx, ok && b.size() == n, "readUnformatted(Vector_) refused or resized wrongly: " + show(o.str()) + " -> size " + std::to_string(b.size()))) return;
         if (!sameAll(want, b, [&](size_t i) { return b[(int)i]; }, ctx, "Vector_")) return;
         // view into a larger vector
         Vector_<E> big(n + 2); VectorView_<E> vw = big(1, n); std::istringstream in2(o.str()); bool ok2 = readUnformatted(in2, vw);
-        if (!ctx.check(ok2, "readUnformatted(VectorView_) refused " + show(o.str()))) return;
+        if (!PBT_CK(ctx, ok2, "readUnformatted(VectorView_) refused " + show(o.str()))) return;
         sameAll(want, big, [&](size_t i) { return big[(int)i + 1]; }, ctx, "VectorView_");
     } else if (kind == 2) {     // RowVector_ (complex elements do not compile: ~v is a conjugate view)
       if constexpr (!std::is_same<E, std::complex<double> >::value && !std::is_same<E, std::complex<float> >::value) {
@@ -326,11 +326,11 @@ template <class E> void contDyn(ElemSrc& src, pbt::Ctx& ctx, int kind, int n, in
         if (ctx.wantDesc) ctx.desc << "  RowVector_ n=" << n << " -> " << show(o.str()) << "\n";
         if (!checkText(o.str(), want, 1, n, ctx, "RowVector_")) return;
         RowVector_<E> big(n + 2); RowVectorView_<E> vw = big(1, n); std::istringstream in2(o.str()); bool ok2 = readUnformatted(in2, vw);
-        if (!ctx.check(ok2, "readUnformatted(RowVectorView_) refused " + show(o.str()))) return;
+        if (!PBT_CK(ctx, ok2, "readUnformatted(RowVectorView_) refused " + show(o.str()))) return;
         if (!sameAll(want, big, [&](size_t i) { return big[(int)i + 1]; }, ctx, "RowVectorView_")) return;
         if (ctx.known("readunformatted-rowvector-discarded")) { ctx.label("excluded:rowvector-discarded"); return; }
         std::istringstream in(o.str()); RowVector_<E> b(1); bool ok = readUnformatted(in, b);
-        if (!ctx.check(ok && b.size() == n, "readUnformatted(RowVector_) returned " + std::string(ok ? "true" : "false") + " but delivered " + std::to_string(b.size()) + " of " + std::to_string(n) + " elements written by writeUnformatted: " + show(o.str()))) return;
+        if (!PBT_CK(ctx, ok && b.size() == n, "readUnformatted(RowVector_) returned " + std::string(ok ? "true" : "false") + " but delivered " + std::to_string(b.size()) + " of " + std::to_string(n) + " elements written by writeUnformatted: " + show(o.str()))) return;
         sameAll(want, b, [&](size_t i) { return b[(int)i]; }, ctx, "RowVector_");
       } else { contDyn<E>(src, ctx, 1, n, m); }
     } else if constexpr (std::is_same<E, std::complex<double> >::value || std::is_same<E, std::complex<float> >::value) { contDyn<E>(src, ctx, 1, n, m);   // fillUnformatted(Matrix_<complex>) does not compile either
@@ -340,9 +340,9 @@ template <class E> void contDyn(ElemSrc& src, pbt::Ctx& ctx, int kind, int n, in
         if (ctx.wantDesc) ctx.desc << "  Matrix_ " << n << "x" << m << " -> " << show(o.str()) << "\n";
         if (!checkText(o.str(), want, n, m, ctx, "Matrix_")) return;
         Matrix_<E> b(n, m); std::istringstream in(o.str()); bool ok = fillUnformatted(in, b);
-        if (!ctx.check(ok, "fillUnformatted(Matrix_) refused " + show(o.str()))) return;
+        if (!PBT_CK(ctx, ok, "fillUnformatted(Matrix_) refused " + show(o.str()))) return;
         if (!sameAll(want, b, [&](size_t i) { return b((int)i / m, (int)i % m); }, ctx, "Matrix_")) return;
-        if (n * m > 0) { Matrix_<E> c(n, m); std::istringstream sh(dropLastToken(o.str())); ctx.check(!fillUnformatted(sh, c), "fillUnformatted(Matrix_) accepted a list that is one token short"); }
+        if (n * m > 0) { Matrix_<E> c(n, m); std::istringstream sh(dropLastToken(o.str())); PBT_CK(ctx, !fillUnformatted(sh, c), "fillUnformatted(Matrix_) accepted a list that is one token short"); }
     }
 }
 template <class E> void contByShape(ElemSrc& src, pbt::Ctx& ctx, int shape, int n, int m) {
@@ -426,30 +426,30 @@ pbt::Config config() {
         double d = 0; float f = 0; bool b = false;
         bool a1 = String("1.5abc").tryConvertTo(d), a2 = String("2.5 x").tryConvertTo(f), a3 = String("1x").tryConvertTo(b);
         ctx.desc << "tryConvertTo<double>(\"1.5abc\")=" << a1 << " tryConvertTo<float>(\"2.5 x\")=" << a2 << " tryConvertTo<bool>(\"1x\")=" << a3 << "\n";
-        ctx.check(!a1 && !a2 && !a3, std::string("tryConvertTo accepts trailing characters: double \"1.5abc\" -> ") + (a1 ? "true" : "false") + ", float \"2.5 x\" -> " + (a2 ? "true" : "false") + ", bool \"1x\" -> " + (a3 ? "true" : "false"));
-        double d2 = 0; ctx.check(String(" 1.5 \n").tryConvertTo(d2) && d2 == 1.5, "surrounding white space must stay accepted");
+        PBT_CK(ctx, !a1 && !a2 && !a3, std::string("tryConvertTo accepts trailing characters: double \"1.5abc\" -> ") + (a1 ? "true" : "false") + ", float \"2.5 x\" -> " + (a2 ? "true" : "false") + ", bool \"1x\" -> " + (a3 ? "true" : "false"));
+        double d2 = 0; PBT_CK(ctx, String(" 1.5 \n").tryConvertTo(d2) && d2 == 1.5, "surrounding white space must stay accepted");
     }});
     c.directed.push_back({"rowvector-read-discarded", "readunformatted-rowvector-discarded", [](pbt::Ctx& ctx) {
         std::istringstream in("1 2 3"); RowVector_<double> r; bool ok = readUnformatted(in, r);
         ctx.desc << "readUnformatted(\"1 2 3\", RowVector_<double>) = " << ok << ", size " << r.size() << "\n";
-        ctx.check(!ok || r.size() == 3, "readUnformatted(istream, RowVector_<double>&) returns true for \"1 2 3\" but leaves the RowVector_ with " + std::to_string(r.size()) + " elements (reads into a temporary copy)");
+        PBT_CK(ctx, !ok || r.size() == 3, "readUnformatted(istream, RowVector_<double>&) returns true for \"1 2 3\" but leaves the RowVector_ with " + std::to_string(r.size()) + " elements (reads into a temporary copy)");
     }});
     c.directed.push_back({"complex-nonfinite-string", "complex-string-nonfinite", [](pbt::Ctx& ctx) {
         std::complex<double> z(std::numeric_limits<double>::quiet_NaN(), 2), back; String s(z); bool ok = s.tryConvertTo(back);
         ctx.desc << "String(complex(NaN,2)) = " << s << " -> tryConvertTo = " << ok << "\n";
-        ctx.check(ok && std::isnan(back.real()) && back.imag() == 2, "String(std::complex<double>(NaN,2)) = \"" + std::string(s) + "\" cannot be converted back (tryConvertTo<std::complex<double>> returns false)");
+        PBT_CK(ctx, ok && std::isnan(back.real()) && back.imag() == 2, "String(std::complex<double>(NaN,2)) = \"" + std::string(s) + "\" cannot be converted back (tryConvertTo<std::complex<double>> returns false)");
     }});
     c.directed.push_back({"array-trailing-white-space", "readunformatted-array-trailing-whitespace", [](pbt::Ctx& ctx) {
         std::istringstream in("1 2 3\n"); Array_<double> a; bool ok = readUnformatted(in, a);
         std::istringstream in2("1 2 3\n"); Vector_<double> v; bool okv = readUnformatted(in2, v);
         ctx.desc << "readUnformatted(\"1 2 3\\n\") Array_: " << ok << " (" << a.size() << " elements), Vector_: " << okv << " (" << v.size() << " elements)\n";
-        ctx.check(ok && okv && a.size() == 3 && v.size() == 3, std::string("readUnformatted of a variable-length Array_/Vector_ fails when white space follows the last token (\"1 2 3\\n\"): Array_ ") + (ok ? "true" : "false") + ", Vector_ " + (okv ? "true" : "false"));
+        PBT_CK(ctx, ok && okv && a.size() == 3 && v.size() == 3, std::string("readUnformatted of a variable-length Array_/Vector_ fails when white space follows the last token (\"1 2 3\\n\"): Array_ ") + (ok ? "true" : "false") + ", Vector_ " + (okv ? "true" : "false"));
     }});
     c.directed.push_back({"complex-row-conjugated", "unformatted-complex-row-conjugated", [](pbt::Ctx& ctx) {
         typedef std::complex<double> C; Row<2, C> r(C(1, 2), C(3, -4)); std::ostringstream o; writeUnformatted(o, r);
         std::istringstream in("1 2 3 -4"); Row<2, C> rr; bool ok = readUnformatted(in, rr);
         ctx.desc << "writeUnformatted(Row<2,complex>((1,2),(3,-4))) = " << show(o.str()) << "; readUnformatted(\"1 2 3 -4\") = " << rr << "\n";
-        ctx.check(o.str() == "1 2 3 -4" && ok && rr[0] == C(1, 2) && rr[1] == C(3, -4), "writeUnformatted(Row<2,complex>((1,2),(3,-4))) writes " + show(o.str()) + " (the conjugates; Vec writes \"1 2 3 -4\") and readUnformatted(Row) conjugates what it reads");
+        PBT_CK(ctx, o.str() == "1 2 3 -4" && ok && rr[0] == C(1, 2) && rr[1] == C(3, -4), "writeUnformatted(Row<2,complex>((1,2),(3,-4))) writes " + show(o.str()) + " (the conjugates; Vec writes \"1 2 3 -4\") and readUnformatted(Row) conjugates what it reads");
     }});
     c32::addXmlDirected(c);
     c.requiredLabels = {"mode:scalar", "mode:accept", "mode:container", "mode:xml", "mode:raw", "scalar:double:nonfinite", "scalar:double:subnormal", "scalar:float:subnormal", "accept:double:literal+junk", "accept:bool:literal+junk",
